@@ -1,6 +1,7 @@
 package props
 
 import (
+	"crypto/sha256"
 	"encoding/hex"
 	"fmt"
 	"strconv"
@@ -23,6 +24,7 @@ type twoChain struct {
 	l1        *henv.L1
 	l2        *henv.L2
 	bridgeID  uint64
+	opts      tcOpts
 	users     []henv.User // same keys on both chains (same bech32 prefix)
 	executors []henv.User
 	admin     henv.User
@@ -50,6 +52,8 @@ type tcOpts struct {
 	fault      bool
 	period     time.Duration
 	otherFirst int // number of bridges created before ours (so that our id is not 1)
+	// fromGenesis: the L2 starts through InitGenesis(default genesis) as a real chain does
+	fromGenesis bool
 }
 
 func newTwoChain(o tcOpts) *twoChain {
@@ -72,7 +76,8 @@ func newTwoChain(o tcOpts) *twoChain {
 	for _, e := range tc.executors {
 		execs = append(execs, e.Str)
 	}
-	tc.l2 = henv.NewL2(henv.L2Options{Admin: tc.admin.Str, Executors: execs, WithFault: o.fault})
+	tc.l2 = henv.NewL2(henv.L2Options{Admin: tc.admin.Str, Executors: execs, WithFault: o.fault, FromGenesis: o.fromGenesis})
+	tc.opts = o
 	for i := 0; i <= o.otherFirst; i++ {
 		cfg := henv.DefaultBridgeConfig(tc.proposer.Str, tc.chal.Str, tc.period)
 		r := tc.l1.Deliver(ophosttypes.NewMsgCreateBridge(tc.proposer.Str, cfg))
@@ -164,7 +169,31 @@ func (tc *twoChain) leafOf(w l2Withdrawal) (t wd, ok bool) {
 
 // proposeTree builds the output over ws (in sequence order) and proposes it on L1.
 func (tc *twoChain) proposeTree(ts []wd, l2Block uint64) (*mOutput, henv.Result) {
-	o := buildOutput(ts, 0, ref32(byte(l2Block)))
+	return tc.proposeDeepTree(ts, l2Block, 0)
+}
+
+// proposeDeepTree: the withdrawals ts are the first leaves of an output that covers 2^(k+extraLevels)
+// withdrawals in all; the other leaves (other users' withdrawals) are fixed synthetic hashes.
+func (tc *twoChain) proposeDeepTree(ts []wd, l2Block uint64, extraLevels int) (*mOutput, henv.Result) {
+	var o *mOutput
+	if extraLevels == 0 {
+		o = buildOutput(ts, 0, ref32(byte(l2Block)))
+	} else {
+		size := 1
+		for size < len(ts) {
+			size *= 2
+		}
+		var pad [][32]byte
+		for i := len(ts); i < size; i++ {
+			pad = append(pad, sha256.Sum256([]byte(fmt.Sprintf("other withdrawal %d", i))))
+		}
+		var extra [][]byte
+		for i := 0; i < extraLevels; i++ {
+			h := sha256.Sum256([]byte(fmt.Sprintf("other subtree at level %d", i)))
+			extra = append(extra, h[:])
+		}
+		o = buildDeepOutput(ts, pad, extra, 0, ref32(byte(l2Block)))
+	}
 	next, _ := tc.l1.K.GetNextOutputIndex(tc.l1.Ctx, tc.bridgeID)
 	r := tc.l1.Deliver(ophosttypes.NewMsgProposeOutput(tc.proposer.Str, tc.bridgeID, next, l2Block, o.Root[:]))
 	if r.OK() {
@@ -182,3 +211,22 @@ func ref32(b byte) []byte {
 }
 
 var _ = ref.Leaf
+
+// restartL2 exports the L2 (accounts, balances, opchild) and starts a fresh chain from that
+// genesis at the same height and time; the new chain replaces tc.l2.
+func (tc *twoChain) restartL2() {
+	old := tc.l2
+	var execs []string
+	for _, e := range tc.executors {
+		execs = append(execs, e.Str)
+	}
+	n := henv.NewL2(henv.L2Options{Admin: tc.admin.Str, Executors: execs, WithFault: tc.opts.fault})
+	n.Ctx = n.Ctx.WithBlockHeight(old.Ctx.BlockHeight()).WithBlockTime(old.Ctx.BlockTime()).WithBlockHeader(old.Ctx.BlockHeader()).WithConsensusParams(old.Ctx.ConsensusParams())
+	n.AK.InitGenesis(n.Ctx, *old.AK.ExportGenesis(old.Ctx))
+	n.BK.InitGenesis(n.Ctx, old.BK.ExportGenesis(old.Ctx))
+	var gs opchildtypes.GenesisState
+	n.Enc.Marshaler.MustUnmarshalJSON(old.Enc.Marshaler.MustMarshalJSON(old.K.ExportGenesis(old.Ctx)), &gs)
+	n.K.InitGenesis(n.Ctx, &gs)
+	tc.l2 = n
+	tc.logf("L2 genesis export -> import")
+}
